@@ -48,6 +48,16 @@ def burst(h, rng):
     from world import K
     if rng.random() < 0.6 and h.by_kind["Section"] and h.by_kind["ByteInterval"]:
         s = rng.choice(h.by_kind["Section"])
+        mem0 = [x for x in h.w.kids(s)]
+        if mem0 and rng.random() < 0.25:
+            # a member is re-added while it is a member / leaves and returns in a bulk update
+            bi = rng.choice(mem0)
+            if rng.random() < 0.5:
+                h.emit([3, s, [K["ByteInterval"]], rng.choice([0, 5, 6]), [[bi]]])
+            else:
+                h.emit([2, bi, []])
+                h.emit([3, s, [K["ByteInterval"]], 5, [[bi] + [x for x in h.by_kind["ByteInterval"] if x != bi][:1]]])
+            return
         for _ in range(rng.choice([2, 3, 5, 8])):
             mem = [x for x in h.w.kids(s)]
             r = rng.random()
@@ -70,6 +80,16 @@ def burst(h, rng):
     elif h.by_kind["ByteInterval"]:
         bi = rng.choice(h.by_kind["ByteInterval"])
         blocks = h.by_kind["CodeBlock"] + h.by_kind["DataBlock"]
+        mem0 = [x for x in h.w.kids(bi)]
+        if mem0 and len(blocks) >= 2 and rng.random() < 0.35:
+            # a member leaves and comes back -- unchanged -- as part of a bulk update, with no lookup in between
+            b = rng.choice(mem0)
+            others = [x for x in blocks if x != b]
+            h.emit([2, b, []] if rng.random() < 0.5 else [3, bi, [K["CodeBlock"], K["DataBlock"]], 1, [[b]]])
+            batch = [b] + rng.sample(others, min(len(others), rng.choice([1, 2])))
+            rng.shuffle(batch)
+            h.emit([3, bi, [K["CodeBlock"], K["DataBlock"]], 5, [batch]])
+            return
         for _ in range(rng.choice([2, 3, 5, 8])):
             mem = [x for x in h.w.kids(bi)]
             r = rng.random()
